@@ -110,11 +110,12 @@ def run_part(prop, seed, budget):
                 if got != sorted(want): _fail(failures, "validator-naming-its-field-with-get_alias", "crash:" + r[1].split(":")[0] if r[0] == "crash" else "validator-error-not-located-at-the-alias", datum=d, path=path, got=got, expected=want)
     if prop in ("C03", "C17"):
         # examples (lists, possibly of dicts) in a schema used inside Annotated: the annotated type is a key of the caches
-        xsrc = ["from dataclasses import dataclass, field", "from typing import *", "from apischema import schema", "", "@dataclass", f"class Xm{i}:",
+        xsrc = ["from dataclasses import dataclass, field", "from typing import *", "from apischema import schema", "from apischema.metadata import properties", "", "@dataclass", f"class Xm{i}:",
                 "    x: Annotated[int, schema(examples=[1, 2], description='d')] = 0", "    m: Annotated[Dict[str, int], schema(examples=[{'a': 1}])] = field(default_factory=dict)",
-                "    l: List[Annotated[str, schema(examples=['s'])]] = field(default_factory=list)", ""]
+                "    l: List[Annotated[str, schema(examples=['s'])]] = field(default_factory=list)",
+                "    extra: Annotated[Dict[str, int], properties] = field(default_factory=dict)", ""]
         Xm = vars(build_module(xsrc, f"corners7ex2_{seed}"))[f"Xm{i}"]
-        for nm, fn_ in (("deserialize", lambda: deserialize(Xm, {"x": 1, "m": {"k": 2}, "l": ["a"]})), ("serialize", lambda: serialize(Xm, Xm(1, {"k": 2}, ["a"]))),
+        for nm, fn_ in (("deserialize", lambda: deserialize(Xm, {"x": 1, "m": {"k": 2}, "l": ["a"], "zz": 3})), ("serialize", lambda: serialize(Xm, Xm(1, {"k": 2}, ["a"], {"zz": 3}))),
                         ("deserialization_schema", lambda: deserialization_schema(Xm)), ("serialization_schema", lambda: serialization_schema(Xm))):
             n += 1; distinct.add(case_hash("c7-examples-annotated", nm)); hist["examples-inside-annotated"] += 1
             r = _out(fn_)
